@@ -375,7 +375,7 @@ impl Check for C06 {
             out.push(case_json(&s, cap, key, probes, &tape));
             // the interesting capacity moves with the size
             for c in [0usize, 4, 8, 12, 16, 20, 24, 28, 32] {
-                if c != cap && s.weight() <= 2000 && cap != UNCHECKED_CAP {
+                if c != cap && s.weight() <= 64 && cap != UNCHECKED_CAP {
                     out.push(case_json(&s, c, key, probes, &tape));
                 }
             }
